@@ -248,6 +248,9 @@ class Client(BaseComponent):
             self._closeflag = True
 
     def _read(self):
+        if not self._connected:
+            # a readiness event queued before the connection was closed
+            return
         try:
             try:
                 data = self._ssock.read(self._bufsize) if self.secure and self._ssock else self._sock.recv(self._bufsize)
